@@ -49,6 +49,7 @@ class TofuWorld:
         self.servers = {}
         self.redirect = {}        # (h, p) -> (h2, p2) | None
         self.reader_mode = {}     # (h, p) -> 'eager' | 'lazy' | 'never'
+        self.fail_mode = {}       # (h, p) -> None | 'close' | 'rst' | 'stall'
         self.records = []
         self.use_ec = False
         self.cut = 0
@@ -66,7 +67,14 @@ class TofuWorld:
                 else:
                     peer.send_app(f"20 text/plain\r\nhello from {h}:{p}\n".encode())
             mode = self.reader_mode.get(key, "eager")
+            fail = self.fail_mode.get(key)
             d = {"script": [("wait_line",), ("call", respond), ("close",)]}
+            if fail == "close":
+                d = {"script": [("wait_line",), ("close",)]}
+            elif fail == "rst":
+                d = {"script": [("rst",)]}
+            elif fail == "stall":
+                d = {"script": [("stall",)]}
             if mode == "never":
                 d["reader"] = "never"
             elif mode == "lazy":
